@@ -218,6 +218,11 @@ func installSpecials(in *Interp, p *Pkg) {
 				if e != nil {
 					return nil, e
 				}
+				if fk == FnMacro && b.L[0].K == KSym {
+					// a local macro is known by the name its binding gives it
+					// (the frame of its expansion carries that name)
+					f.Fn.Name = localName(b.L[0].S)
+				}
 				if e := in.bindLocal(scope, b.L[0], f); e != nil {
 					return nil, e
 				}
